@@ -12,14 +12,22 @@ class Replayer:
         self.pid = pid; self.root = root; self.repo = repo; self.work = work; self.log = log
         self.exe = None; self.err = None
 
-    def build(self):
-        if self.exe or self.err: return
-        src = os.path.join(self.root, 'replay', self.pid + '.cpp')
-        cfgp = os.path.join(self.root, 'replay', self.pid + '.build.json')
+    def build(self, group=None):
+        # a group may have its own driver (replay/<ID>-<group>.cpp) when it needs other libraries than the property's main one
+        own = os.path.join(self.root, 'replay', '%s-%s.cpp' % (self.pid, group)) if group else None
+        if own and os.path.exists(own):
+            if getattr(self, 'exe_for', None) == group and self.exe: return
+            self.exe = None; self.err = None; self.exe_for = group
+            src = own; cfgp = os.path.join(self.root, 'replay', '%s-%s.build.json' % (self.pid, group))
+        else:
+            if getattr(self, 'exe_for', None) is None and (self.exe or self.err): return
+            self.exe = None; self.err = None; self.exe_for = None
+            src = os.path.join(self.root, 'replay', self.pid + '.cpp')
+            cfgp = os.path.join(self.root, 'replay', self.pid + '.build.json')
         if not os.path.exists(src):
             self.err = 'no replay driver for ' + self.pid; return
         cfg = json.load(open(cfgp)) if os.path.exists(cfgp) else {}
-        exe = os.path.join(self.work, 'replay_' + self.pid)
+        exe = os.path.join(self.work, 'replay_' + self.pid + ('_' + group if (own and os.path.exists(own)) else ''))
         cmd = ['g++', '-std=c++20', '-O1', '-w', '-I', os.path.join(self.root, 'replay')]
         for i in cfg.get('includes', []): cmd += ['-I', i.replace('/repo', self.repo)]
         cmd += [src] + [s.replace('/repo', self.repo) for s in cfg.get('sources', [])] + cfg.get('flags', []) + ['-o', exe]
@@ -30,7 +38,7 @@ class Replayer:
             self.exe = exe
 
     def run(self, group, inputs):
-        self.build()
+        self.build(group)
         if self.err: return None, self.err
         args = [self.exe, group] + ['%s=%s' % (k, v) for k, v in sorted(inputs.items())]
         try:
